@@ -66,6 +66,7 @@ type GroupRec struct {
 	Dry                bool
 	CachedSize         v1.ResourceList // "last observed node size" the controller holds when this scan decides (nil: none)
 	PrevIncreaseFailed bool            // the previous scan's cloud scale-up of this group failed (no lock may result)
+	FleetFails         int             // consecutive failed fleet provisionings of this group on the current provider object, this scan included
 	Locked             bool            // lock model says locked when processing started
 	LockT0             time.Time       // valid when Locked
 	Start              time.Time       // virtual time of the marker
@@ -110,6 +111,7 @@ type ScanRecord struct {
 	Restarted   bool // first scan of a controller incarnation
 	T0, T1      time.Time
 	Synced      bool
+	Hung        bool // RunOnce never returned: every goroutine of the scan was blocked for good
 	View        *sim.View
 	ViewAfter   *sim.View // the cache content when the scan returned (escalator must not have touched it)
 	API         map[string]*v1.Node
@@ -230,7 +232,13 @@ func (w *World) Scan(sync bool, order []string) *ScanRecord {
 	mark := w.J.Mark()
 	rec.T0 = time.Now()
 	realStart := realNow()
-	func() {
+	// RunOnce runs in a goroutine of its own so that a scan that wedges (every goroutine of it
+	// blocked for good) is noticed: virtual time only jumps to the watchdog's deadline when nothing
+	// in the bubble can run any more, so a scan that is merely slow never trips it
+	done := make(chan struct{})
+	ctrl := w.Ctrl
+	go func() {
+		defer close(done)
 		defer func() {
 			if r := recover(); r != nil {
 				if _, isExit := r.(exitSentinel); isExit {
@@ -241,16 +249,21 @@ func (w *World) Scan(sync bool, order []string) *ScanRecord {
 				rec.Stack = string(debug.Stack())
 			}
 		}()
-		rec.Err = w.Ctrl.RunOnce()
+		rec.Err = ctrl.RunOnce()
 	}()
+	select {
+	case <-done:
+	case <-time.After(30 * 24 * time.Hour):
+		rec.Hung = true
+	}
 	rec.RealDur = realSince(realStart)
 	rec.T1 = time.Now()
 	rec.Entries = w.J.Since(mark)
 	rec.FaultHits = w.J.Disarm()
 	w.FailBuild = 0
 	w.analyse(rec)
-	if rec.FatalExit || rec.Panic != nil {
-		// the process would be gone: the next scan starts a new controller
+	if rec.FatalExit || rec.Panic != nil || rec.Hung {
+		// the process would be gone (or has to be killed): the next scan starts a new controller
 		w.Ctrl = nil
 	}
 	if rec.Err != nil {
@@ -333,6 +346,29 @@ func (w *World) analyse(rec *ScanRecord) {
 		if at, ok := w.FailedIncrease[gr.G]; ok && at == rec.Index-1 {
 			gr.PrevIncreaseFailed = true
 		}
+		// consecutive failed fleet provisionings (instances acquired, then cleaned up) per group and
+		// provider object: a new provider (controller start, rebuild after a failed refresh) starts at 0
+		if w.FleetFails == nil || (gr.G == 0 && (rec.Restarted || rebuilt(rec))) {
+			w.FleetFails = map[int]int{}
+		}
+		acquired := false
+		for _, e := range gr.Seg {
+			if e.Kind == sim.ACreateFleet && e.OK() && len(e.Returned) > 0 {
+				acquired = true
+			}
+			if e.Kind == sim.MIncreaseSize && w.Cfg.IsFleet(gr.G) {
+				if e.OK() {
+					w.FleetFails[gr.G] = 0
+				} else if acquired {
+					w.FleetFails[gr.G]++
+				}
+				acquired = false
+			}
+		}
+		if rec.FatalExit && acquired { // the exit happened inside the clean-up: the marker was never written
+			w.FleetFails[gr.G]++
+		}
+		gr.FleetFails = w.FleetFails[gr.G]
 		if gr.ScaleUpOK {
 			w.LockT0[gr.G] = gr.ScaleUpAt
 			delete(w.FailedIncrease, gr.G)
@@ -347,6 +383,16 @@ func (w *World) analyse(rec *ScanRecord) {
 			}
 		}
 	}
+}
+
+// rebuilt reports whether the provider was rebuilt at the start of the scan (failed refresh).
+func rebuilt(rec *ScanRecord) bool {
+	for _, e := range rec.Prelude {
+		if e.Kind == sim.MBuild {
+			return true
+		}
+	}
+	return false
 }
 
 func hasEsc(n *v1.Node) bool {
